@@ -118,6 +118,11 @@ def run(tier, seed):
     for c in cfgs_notr:
         if c["chain"][0]["k"] != "seqgen":
             runs.append((c, {"fmt": "json"}))
+    # runs that fail: "a run that fails under one setting fails under all", and it terminates -- three and more input-side
+    # errors under every batch size (the design itself is model-checked with this family by C17)
+    for c in pipeline.gen_configs("manyfaults", 2, [1, 2, 3]):
+        runs.append((c, {"fmt": "csv"}))
+        runs.append((c, {"fmt": "csv", "env": {"GOMAXPROCS": "1"}}))
     # perturbed schedules
     n_pert = 4000 if thorough else 1200
     for _ in range(n_pert):
